@@ -75,6 +75,7 @@ static InvocationResult invoke_main(const InvocationOpts& o) {
 #endif
   args.push_back("-k"); args.push_back(num(o.failures_allowed >= 1000000 ? 0 : o.failures_allowed));
   if (o.dry_run) args.push_back("-n");
+  if (o.status_option) { args.push_back("--status"); args.push_back(o.status_option); }
   args.insert(args.end(), o.targets.begin(), o.targets.end());
   MainRun m = run_ninja(args);
 #ifdef REAL_RUNNER
